@@ -43,6 +43,7 @@ func verifHarness_C04_handler() {
 	r0 := verifCase(len(vBatches[k0])) + 1
 	vApplied = verifCase(n + 1)
 	// findings are recorded per scenario class: the node already has the batch named by lastseen, or it lags behind it
+	vK0, vHow = k0, ""
 	vLagTag = ":node-has-the-batch"
 	if vApplied <= k0 {
 		vLagTag = ":lagging-node"
@@ -104,9 +105,9 @@ func verifHarness_C04_handler() {
 				}
 			}
 		}
-		verifAssert(!seen, "no-duplicate-after-resume"+vLagTag)
+		verifAssert(!seen, "no-duplicate-after-resume"+vLagTag+vHow)
 		for j2 := 0; j2 < j; j2++ {
-			verifAssert(got[j2] != got[j], "no-duplicate-after-resume"+vLagTag)
+			verifAssert(got[j2] != got[j], "no-duplicate-after-resume"+vLagTag+vHow)
 		}
 	}
 	for _, x := range want {
@@ -116,7 +117,7 @@ func verifHarness_C04_handler() {
 				found = true
 			}
 		}
-		verifAssert(found, "no-loss-after-resume"+vLagTag)
+		verifAssert(found, "no-loss-after-resume"+vLagTag+vHow)
 	}
 	verifAssert(len(got) >= 0, "delivery-sequence-compared")
 	for j := 1; j < len(got); j++ {
